@@ -668,6 +668,10 @@ class FlowEvaluator(Evaluator):
             return getattr(base, attr)(*args, **kwargs)
         if base is None:
             raise AttributeError(f"NoneType object has no attribute {attr}")
+        if base is dict and attr == "fromkeys" and args:
+            return dict.fromkeys(list(self.iterate(args[0])), *args[1:])
+        if base is str and attr in ("join", "maketrans"):
+            return getattr(str, attr)(*args, **kwargs)
         raise Unsupported(f"method {attr} on {type(base).__name__}")
 
     def _isinstance2(self, v, texpr, env) -> bool:
@@ -769,7 +773,15 @@ class LexerSim:
                 try:
                     st["class_attrs"][("Lexer", nm)] = _to_runtime(fold(val, self.mod))
                 except (Unknown, RecursionError):
-                    pass
+                    # a table that mentions the class's own functions (rows of sub-parsers keyed by a character, ...):
+                    # evaluated with those names standing for the functions
+                    env = {mn: Closure(fn.node, {}) for mn, fn in self.cls.methods.items()}
+                    for (c_, a_), v_ in st["class_attrs"].items():
+                        env.setdefault(a_, v_)
+                    try:
+                        st["class_attrs"][("Lexer", nm)] = self.ev.expr(val, env)
+                    except (Unsupported, RepoRaise, LookupError, TypeError, ValueError, AttributeError):
+                        pass
         self.ev.class_attrs = st["class_attrs"]
         if "parsers" in self.me.__dict__:
             self.ev.class_attrs = dict(st["class_attrs"])
@@ -867,3 +879,17 @@ class LexerSim:
 
     def error_names(self) -> List[str]:
         return [e.name for e in self.errors.items]
+
+
+def parsers_hook_works(prog) -> bool:
+    """Does get_next_token consult `self.parsers`?  (A stub planted there, alone, on the source "a", is called.)  Rules that
+    replace the sub-parsers by stubs are undecidable when the tokenizer selects its sub-parsers some other way."""
+    sim = LexerSim(prog, "a")
+    hits = []
+
+    def stub(me=None, sim=sim, hits=hits):
+        hits.append(sim.pos)
+        return TokenStub("T", (1, 1), None)
+    sim.me.__dict__["parsers"] = (stub,)
+    sim.call("get_next_token")
+    return bool(hits)
